@@ -108,6 +108,8 @@ struct Expect {
     adopt_content: bool,
     /// scrollback lines (by index) whose mark is specified although appended in this step
     sb_spec: Vec<usize>,
+    /// the screen before the command (to tell "blanked with the wrong pen" from "not touched")
+    pre_grid: Vec<RRow>,
 }
 
 #[derive(Debug)]
@@ -176,6 +178,7 @@ impl RefTerm {
             adopt_sb_marks_from: self.scrollback.len(),
             adopt_content: false,
             sb_spec: vec![],
+            pre_grid: vec![],
         }
     }
 
@@ -488,6 +491,7 @@ impl RefTerm {
 
     pub fn step(&mut self, cmd: &Cmd, real: &Obs) -> StepRes {
         let mut ex = self.expect();
+        ex.pre_grid = self.grid.clone();
         if let Err(why) = self.exec(cmd, &mut ex) {
             return StepRes::Unspecified(why);
         }
@@ -1021,7 +1025,8 @@ impl RefTerm {
                     // is a statement about the pen (C08), not about the extent
                     if let Some(k) = (0..m.cells.len().min(r.cells.len())).find(|&k| m.cells[k] != r.cells[k]) {
                         let (e, g) = (m.cells[k], r.cells[k]);
-                        if e.0 == ' ' && g.0 == ' ' && e.1 == cur_pen {
+                        let untouched = ex.pre_grid.get(i).and_then(|r| r.cells.get(k)).map(|p| *p == g).unwrap_or(false);
+                        if e.0 == ' ' && g.0 == ' ' && e.1 == cur_pen && !untouched {
                             return StepRes::Mismatch(format!(
                                 "row {} col {}: blank cell has pen {:?}, expected the current pen {:?} (row {:?})",
                                 i, k, g.1, e.1, r
@@ -1029,7 +1034,11 @@ impl RefTerm {
                         }
                     }
                     let pen_only = m.cells.len() == r.cells.len()
-                        && m.cells.iter().zip(r.cells.iter()).all(|(a, b)| a.0 == b.0);
+                        && m.cells.iter().zip(r.cells.iter()).all(|(a, b)| a.0 == b.0)
+                        && (0..m.cells.len()).any(|k| {
+                            m.cells[k] != r.cells[k]
+                                && ex.pre_grid.get(i).and_then(|p| p.cells.get(k)).map(|p| *p != r.cells[k]).unwrap_or(true)
+                        });
                     return StepRes::Mismatch(format!(
                         "row {}{}: {:?}, expected {:?}",
                         i,
